@@ -184,6 +184,7 @@ def attribute(f):
         for x in exp:
             cands.append([(m.get("op"), m.get("id"), m.get("n"), m.get("len")) for m in x.get("sent", [])])
         diff_ops = set()
+        diff_ids = set()
         for c in cands or [[]]:
             n = max(len(c), len(sent))
             for i in range(n):
@@ -191,9 +192,25 @@ def attribute(f):
                 b = sent[i] if i < len(sent) else None
                 if a != b:
                     diff_ops.add((a or b)[0])
+                    diff_ids.add((a or b)[1])
                     if a and b:
                         diff_ops.add(b[0])
+                        diff_ids.add(b[1])
                     break
+        # a differing frame on a flow id that belongs to a bind request speaks about C15
+        ls = f.get("laststate") or {}
+        try:
+            for ep in ("A", "B"):
+                slots = ls.get("slot", {}).get(ep, {})
+                items = slots.items() if isinstance(slots, dict) else enumerate(slots, 1)
+                for k, v in items:
+                    if int(k) in diff_ids and v.get("k") == "Bind":
+                        props.add("C15")
+                for q in list(ls.get("bindq", {}).get(ep, [])) + list(ls.get("breq", {}).get(ep, [])):
+                    if q.get("id") in diff_ids:
+                        props.add("C15")
+        except Exception:
+            pass
         for op in diff_ops:
             props |= {"ack": {"C03", "C04"}, "push": {"C02", "C03", "C05"}, "reset": {"C06", "C10", "C05", "C07", "C03"},
                       "finish": {"C05", "C15", "C06"}, "connect": {"C07"}, "dgram": {"C11"}, "bind": {"C15"},
